@@ -10,7 +10,7 @@ RULE = ("contracts on is_prime/next_prime/factorization/gcd/lcm against a sieve,
         "table-boundary values + large known primes. non-trivial key = (function, construction class, value or size)")
 ASSUMPTIONS = ["reference sieve / deterministic MR bases 2..37 (Sorenson-Webster bound) / trial division in vf/ref/nt.py",
                "Mersenne exponents 521, 607, 1279, 2203 are prime (published)", "curve p and n are prime (checked by reference MR)"]
-REQUIRED = {"quick": ["is_prime.exhaustive", "is_prime.strong_pseudoprime", "is_prime.carmichael", "is_prime.close_semiprime",
+REQUIRED = {"quick": ["first_use_calls", "first_use_systematic", "is_prime.proth", "reentrant_calls", "is_prime.exhaustive", "is_prime.strong_pseudoprime", "is_prime.carmichael", "is_prime.close_semiprime",
                       "is_prime.table_boundary", "is_prime.large_prime", "is_prime.rand64", "next_prime.exhaustive",
                       "next_prime.gap", "factorization.exhaustive", "factorization.beyond_table", "gcd", "lcm"]}
 EXHAUSTIVE = {"quick": ["is_prime: every n in [-10, 2^18]", "next_prime: every n in [-3, 2^14]", "factorization: every n < 2^14"],
